@@ -800,6 +800,8 @@ class Interp:
     return self.apply(callee, args, kwargs, node, module, depth)
 
   def apply(self, callee, args, kwargs, node, module, depth):
+    if getattr(callee, 'sa_hook', False):
+      return callee(args, kwargs)
     if isinstance(callee, tuple) and len(callee) == 3 and callee[0] == 'method':
       return self._method(callee[1], callee[2], args, kwargs, node)
     if isinstance(callee, Closure):
@@ -818,6 +820,8 @@ class Interp:
         return r.value
       return None
     if isinstance(callee, BoundObj):
+      if callee.func.fq in self.hooks:
+        return self.hooks[callee.func.fq]([callee.obj] + args, kwargs)
       return self.call_function(callee.func, [callee.obj] + args, kwargs, depth + 1)
     if isinstance(callee, Ref) and callee.kind == 'func':
       if callee.fq in self.hooks:
